@@ -15,7 +15,12 @@ RULE = ("unlock: L1 histories (sifapp.Setup, real clp message servers, one cache
         "(none / external 10% / external 5% + native 2%); the clp BeginBlocker/EndBlocker run once per new height; the outcome of the "
         "margin-health stage of every removal (pass / queue / block / panic) is computed on the pre-state with the implementation's own "
         "functions and given to the model, which must reproduce ErrQueued / ErrRemovalsBlockedByHealth as refusals that change nothing; "
-        "the units an add mints are taken from CalculatePoolUnits on the pre-state, not from before/after; after EVERY message and hook "
+        "the admin RAISES the lock period by 1..47 blocks in a third "
+        "of the parameter changes (requests matured under the old period are young under the new one); the judge keeps per provider the list "
+        "of unlock requests the implementation ACCEPTED with the height at which the harness ran the message (chk c15.request), and every "
+        "time any stored unlock list changes (any message, hook or parameter change) chk c15.genuine requires the stored units dated q to "
+        "be within the units requested at q; chk c15.removereal judges every removal / decrease on the stored records cut down to those "
+        "real requests; the units an add mints are taken from CalculatePoolUnits on the pre-state, not from before/after; after EVERY message and hook "
         "the records of all 5 providers of both pools are compared with their records before: any fall of anybody's units (gross of the "
         "computed mint), whatever caused it, is judged by c15.remove / c15.consume / c15.once like a removal, and any change of a record "
         "other than the signer's is shown to the model (obs); after every message the result "
